@@ -299,8 +299,29 @@ def attribute(c, obs, f):
 # --------------------------------------------------------------------------- family: direct drive
 def gen_drive(rng):
     n = rng.choice([3, 3, 3, 4, 5])
-    style = rng.choice(["mixed", "mixed", "fifo", "chaos", "partition"])
+    style = rng.choice(["mixed", "fifo", "chaos", "partition", "macro", "macro", "macro"])
     steps = []
+    if style == "macro":
+        # model-aware schedules: elections won with chosen voter subsets, partial replication rounds,
+        # submits to current AND deposed leaders, message loss between phases -- the states in which
+        # logs diverge (stale suffixes, old-term entries on a majority, competing candidates)
+        full = (1 << n) - 1
+        for _ in range(rng.randint(4, 22)):
+            r = rng.random()
+            mask = full if rng.random() < 0.5 else rng.randrange(1 << n)
+            if r < 0.25:
+                steps.append(["ELECT", rng.randrange(n), mask])
+            elif r < 0.50:
+                steps.append(["S", rng.randrange(1 << 16), rng.random() < 0.7, rng.random() < 0.3])
+            elif r < 0.78:
+                steps.append(["REPL", rng.randrange(1 << 16), mask, full if rng.random() < 0.6 else rng.randrange(1 << n)])
+            elif r < 0.88:
+                steps.append(["FLUSH"])
+            elif r < 0.94:
+                steps.append(["D", "any", rng.randrange(1 << 16)])
+            else:
+                steps.append(["T", rng.randrange(n)])
+        return dict(n=n, steps=steps, style=style)
     for _ in range(rng.randint(8, 70)):
         r = rng.random()
         if style == "fifo":
@@ -328,7 +349,7 @@ def gen_drive(rng):
             steps.append(["S", rng.randrange(1 << 16), rng.random() < 0.85])
         else:
             steps.append(["C", rng.randrange(n)])            # toggle crash
-    return dict(n=n, steps=steps)
+    return dict(n=n, steps=steps, style=style)
 
 
 class Cluster:
@@ -413,7 +434,11 @@ class Cluster:
             return None if i in self.crashed else ["H", i]
         if k == "S":
             ls = [i for i, nd in enumerate(self.nodes) if nd.is_leader and i not in self.crashed]
-            i = ls[s[1] % len(ls)] if (ls and s[2]) else s[1] % self.n
+            if len(s) > 3 and s[3] and ls:        # prefer the leader with the OLDEST term (a deposed one)
+                ls = sorted(ls, key=lambda i: self.nodes[i].current_term)[:1]
+            elif ls:                              # otherwise the newest
+                ls = sorted(ls, key=lambda i: -self.nodes[i].current_term)[:1]
+            i = ls[0] if (ls and s[2]) else s[1] % self.n
             if i in self.crashed:
                 return None
             self.ncmd += 1
@@ -424,6 +449,48 @@ class Cluster:
         if k == "A":          # concrete action given literally (corpus witnesses)
             return s[1]
         raise ValueError(s)
+
+    def _find(self, dst, typ, src):
+        for j, (d, sr, m) in enumerate(self.bag):
+            if d == dst and m[0] == typ and (src is None or sr == src):
+                return j
+        return None
+
+    def expand(self, s):
+        """Abstract step -> concrete actions, one at a time (the bag is inspected again after each)."""
+        k = s[0]
+        if k == "ELECT":
+            i = s[1]
+            if i in self.crashed:
+                return
+            yield ["T", i]
+            for d in range(self.n):
+                j = self._find(d, "RV", i)
+                if j is not None and d not in self.crashed and (s[2] >> d) & 1:
+                    yield ["D", j]
+            while (j := self._find(i, "VR", None)) is not None:
+                yield ["D", j]
+        elif k == "REPL":
+            ls = [i for i, nd in enumerate(self.nodes) if nd.is_leader and i not in self.crashed]
+            if not ls:
+                return
+            ldr = ls[s[1] % len(ls)]
+            yield ["H", ldr]
+            for d in range(self.n):
+                j = self._find(d, "AE", ldr)
+                if j is not None and d not in self.crashed and (s[2] >> d) & 1:
+                    yield ["D", j]
+            for d in range(self.n):
+                j = self._find(ldr, "AR", d)
+                if j is not None and (s[3] >> d) & 1:
+                    yield ["D", j]
+        elif k == "FLUSH":
+            while self.bag:
+                yield ["X", 0]
+        else:
+            a = self.resolve(s)
+            if a is not None:
+                yield a
 
     def snapshot(self):
         return [self.obs.node(i) for i in range(self.n)]
@@ -438,16 +505,14 @@ def impl_drive(c):
     acts, actors, actor_obs, bags = [], [], [], []
     snap = None
     for s in c["steps"]:
-        a = cl.resolve(s)
-        if a is None:
-            continue
-        who = cl.act(a)
-        acts.append(a)
-        actors.append(-1 if who is None else who)
-        snap = cl.snapshot()
-        actor_obs.append(None if who is None else snap[who])
-        orc.step(len(acts) - 1, snap, cl.futs())
-        bags.append(len(cl.bag))
+        for a in cl.expand(s):
+            who = cl.act(a)
+            acts.append(a)
+            actors.append(-1 if who is None else who)
+            snap = cl.snapshot()
+            actor_obs.append(None if who is None else snap[who])
+            orc.step(len(acts) - 1, snap, cl.futs())
+            bags.append(len(cl.bag))
     return dict(acts=acts, actors=actors, actor_obs=actor_obs, bags=bags, futs=cl.futs(), final=snap or cl.snapshot(),
                 fails=orc.fails, leaders={str(k): sorted(v) for k, v in orc.leaders.items()})
 
@@ -476,7 +541,7 @@ def nontrivial_drive(c, o):
 
 
 def describe_drive(c):
-    return f"n={c['n']},steps={len(c['steps']) // 20 * 20}+"
+    return f"n={c['n']},{c.get('style', 'corpus')},steps={len(c['steps']) // 20 * 20}+"
 
 
 # --------------------------------------------------------------------------- family: real Simulation
@@ -701,7 +766,7 @@ TRUSTED = [
     "timers are outputs only (the cluster model lets a timeout or heartbeat fire at any moment)",
 ]
 
-COQ_FILES = ["C11/Model.v", "C11/NodeProofs.v", "C11/Election.v", "C11/Refute.v", "C11/Props.v"]
+COQ_FILES = ["C11/Model.v", "C11/NodeProofs.v", "C11/Election.v", "C11/Refute.v", "C11/LogProofs.v", "C11/Props.v"]
 
 
 class SmallShards:
@@ -732,10 +797,15 @@ def run(ctx):
                             "(drive), a second term was reached and an entry committed (sim), a command applied (healthy); distinct by JSON of the input")
     ctx.finish_obligations()
     ctx.assumptions += [
-        "log matching, leader completeness and state-machine safety are stated in C11/Props.v but proved only in part (per-step lemmas); "
-        "the global statements are checked by the oracle on every explored schedule",
-        "the submit-future clause is refuted on the faithful model (c11_submit_future_refuted), known finding C11-future-keyed-by-index",
-        "liveness clause: checked by the oracle on the 'healthy' family (real Simulation), not proved",
+        "cluster-level log matching, leader completeness and state-machine safety are STATED in C11/LogProofs.v (…_statement) but not proved; "
+        "proved are the per-step theorems c11_log_matching_step_partial and c11_leader_append_only_partial; the statements are evaluated by the "
+        "oracle on the implementation after every event of every explored schedule",
+        "the submit-future clause is refuted on the faithful model (c11_submit_future_refuted), known finding C11-future-keyed-by-index; "
+        "what holds is the last conjunct of c11_apply_in_order",
+        "liveness clause (healthy network => every command applied everywhere in submission order): checked by the oracle on the 'healthy' "
+        "family (real Simulation), not proved",
+        "timers are not part of the model state: the cluster model lets ATimeout/AHeartbeat fire at any moment (over-approximation of every "
+        "timeout draw, crash and restart); the sim family checks that the real handlers return the timer events the model predicts",
     ]
 
 
